@@ -232,3 +232,213 @@ Example cow_safe_LocalStack_release_local : cow_safe prog_LocalStack_release_loc
 
 Lemma cow_safe_generated : cow_safe_all gen_methods = true.
 Proof. vm_compute. reflexivity. Qed.
+
+(* ------------------------------------------------------------------ below operation granularity *)
+(* The same check, instruction by instruction, with other contexts running in between (they can only
+   append cells: that is their own guarantee).  owned = the cells this run allocated and has not yet
+   published.  Every instruction of a cow_safe program writes only owned cells, and ContextVar.set gives
+   up ownership of everything: a published cell is never written again, so a child spawned or a sibling
+   scheduled between two instructions of one operation can never observe a change. *)
+Definition own_ok (fresh : list reg) (s : st) (owned : list loc) : Prop :=
+  forall r l, rmem r fresh = true -> rget (s_regs s) r = Some l -> In l owned.
+
+Definition interfere (s : st) (extra : list obj) : st :=
+  mkst (s_heap s ++ extra) (s_regs s) (s_vals s) (s_bind s).
+
+Lemma own_ok_interfere : forall fresh s owned extra, own_ok fresh s owned -> own_ok fresh (interfere s extra) owned.
+Proof. intros fresh s owned extra H r l Hm Hg. exact (H r l Hm Hg). Qed.
+
+Lemma own_write : forall fresh s owned r l o o', own_ok fresh s owned -> rmem r fresh = true ->
+  robj s r = Some (l, o) ->
+  forall l', ~ In l' owned -> nth_error (s_heap (write s l o')) l' = nth_error (s_heap s) l'.
+Proof.
+  intros fresh s owned r l o o' H Hm Ho l' Hn. unfold robj in Ho.
+  destruct (rget (s_regs s) r) as [l0|] eqn:Eg; [|discriminate].
+  destruct (nth_error (s_heap s) l0); [|discriminate]. inversion Ho. subst l0.
+  cbn. apply nth_error_upd_nth_ne. intro E. subst l'. apply Hn. eapply H; eauto.
+Qed.
+
+Lemma own_alloc : forall fresh s owned o r, own_ok fresh s owned ->
+  own_ok (r :: fresh) (alloc s o r) (length (s_heap s) :: owned).
+Proof.
+  intros fresh s owned o r H q l Hm Hg. cbn in Hg. rewrite rmem_cons in Hm.
+  destruct (Nat.eqb r q) eqn:E.
+  - inversion Hg. left. reflexivity.
+  - destruct (Nat.eqb q r) eqn:E'; [apply Nat.eqb_eq in E'; apply Nat.eqb_neq in E; congruence|].
+    cbn in Hm. right. eauto.
+Qed.
+
+Lemma alloc_keeps : forall s o r l, l < length (s_heap s) ->
+  nth_error (s_heap (alloc s o r)) l = nth_error (s_heap s) l.
+Proof. intros. cbn. apply nth_error_app1. assumption. Qed.
+
+Lemma cow_instr_guarantee : forall ps i p' fresh s s' owned,
+  cow_safe_from fresh (PDo i p') = true -> own_ok fresh s owned ->
+  exec_instr ps s i = Some s' ->
+  (forall l, ~ In l owned -> l < length (s_heap s) -> nth_error (s_heap s') l = nth_error (s_heap s) l) /\
+  exists fresh' owned', cow_safe_from fresh' p' = true /\ own_ok fresh' s' owned' /\
+    (forall l, In l owned' -> In l owned \/ l = length (s_heap s)) /\
+    (forall r, i = ISet r -> owned' = []).
+Proof.
+  intros ps i p' fresh s s' owned Hc Ho He.
+  destruct i; cbn [cow_safe_from] in Hc; cbn [exec_instr] in He.
+  - (* IGet *)
+    destruct (s_bind s) as [l|]; inversion He; subst s'; clear He.
+    + split; [reflexivity|]. exists (rdrop r fresh), owned. split; [assumption|]. split; [|split; [auto | discriminate]].
+      intros q l' Hm Hg. apply rmem_rdrop in Hm. destruct Hm as [Hne Hm]. cbn in Hg.
+      destruct (Nat.eqb r q) eqn:E; [apply Nat.eqb_eq in E; congruence|]. eauto.
+    + split; [intros; apply alloc_keeps; assumption|].
+      exists (rdrop r fresh), owned. split; [assumption|]. split; [|split; [auto | discriminate]].
+      intros q l' Hm Hg. apply rmem_rdrop in Hm. destruct Hm as [Hne Hm]. cbn in Hg.
+      destruct (Nat.eqb r q) eqn:E; [apply Nat.eqb_eq in E; congruence|]. eauto.
+  - (* ICopy *)
+    destruct (robj s s0) as [[l o]|]; inversion He; subst s'.
+    split; [intros; apply alloc_keeps; assumption|].
+    exists (r :: fresh), (length (s_heap s) :: owned). split; [assumption|]. split; [apply own_alloc; assumption|].
+    split; [intros l' [E|H]; auto | discriminate].
+  - (* ISliceInit *)
+    destruct (robj s s0) as [[l [d|xs]]|]; inversion He; subst s'.
+    split; [intros; apply alloc_keeps; assumption|].
+    exists (r :: fresh), (length (s_heap s) :: owned). split; [assumption|]. split; [apply own_alloc; assumption|].
+    split; [intros l' [E|H]; auto | discriminate].
+  - (* INew *)
+    inversion He; subst s'.
+    split; [intros; apply alloc_keeps; assumption|].
+    exists (r :: fresh), (length (s_heap s) :: owned). split; [assumption|]. split; [apply own_alloc; assumption|].
+    split; [intros l' [E|H]; auto | discriminate].
+  - (* IMove *)
+    destruct (rget (s_regs s) s0) as [l|] eqn:Eg; inversion He; subst s'; clear He.
+    split; [reflexivity|]. eexists. exists owned. split; [exact Hc|]. split; [|split; [auto | discriminate]].
+    intros q l' Hm Hg. cbn in Hg. destruct (rmem s0 fresh) eqn:Es.
+    + rewrite rmem_cons in Hm. destruct (Nat.eqb r q) eqn:E.
+      * inversion Hg. subst l'. eauto.
+      * destruct (Nat.eqb q r) eqn:E'; [apply Nat.eqb_eq in E'; apply Nat.eqb_neq in E; congruence|].
+        cbn in Hm. eauto.
+    + apply rmem_rdrop in Hm. destruct Hm as [Hne Hm].
+      destruct (Nat.eqb r q) eqn:E; [apply Nat.eqb_eq in E; congruence|]. eauto.
+  - (* ISetItem *)
+    apply andb_true_iff in Hc. destruct Hc as [Hm Hc].
+    destruct (robj s r) as [[l [d|xs]]|] eqn:Eo; try discriminate.
+    destruct (nth_error ps k); try discriminate. destruct (nth_error ps v); try discriminate.
+    inversion He; subst s'. split; [intros l' Hn _; eapply own_write; eauto|].
+    exists fresh, owned. split; [assumption|]. split; [exact Ho|]. split; [auto | discriminate].
+  - (* IDelItem *)
+    apply andb_true_iff in Hc. destruct Hc as [Hm Hc].
+    destruct (robj s r) as [[l [d|xs]]|] eqn:Eo; try discriminate.
+    destruct (nth_error ps k); try discriminate. destruct (dict_mem d n); try discriminate.
+    inversion He; subst s'. split; [intros l' Hn _; eapply own_write; eauto|].
+    exists fresh, owned. split; [assumption|]. split; [exact Ho|]. split; [auto | discriminate].
+  - (* IAppend *)
+    apply andb_true_iff in Hc. destruct Hc as [Hm Hc].
+    destruct (robj s r) as [[l [d|xs]]|] eqn:Eo; try discriminate.
+    destruct (nth_error ps v); try discriminate.
+    inversion He; subst s'. split; [intros l' Hn _; eapply own_write; eauto|].
+    exists fresh, owned. split; [assumption|]. split; [exact Ho|]. split; [auto | discriminate].
+  - (* IPopLast *)
+    apply andb_true_iff in Hc. destruct Hc as [Hm Hc].
+    destruct (robj s r) as [[l [d|xs]]|] eqn:Eo; try discriminate.
+    destruct (is_nil xs); try discriminate.
+    inversion He; subst s'. split; [intros l' Hn _; eapply own_write; eauto|].
+    exists fresh, owned. split; [assumption|]. split; [exact Ho|]. split; [auto | discriminate].
+  - (* IClear *)
+    apply andb_true_iff in Hc. destruct Hc as [Hm Hc].
+    destruct (robj s r) as [[l [d|xs]]|] eqn:Eo; try discriminate; inversion He; subst s';
+      (split; [intros l' Hn _; eapply own_write; eauto|]);
+      exists fresh, owned; (split; [assumption|]); (split; [exact Ho|]); (split; [auto | discriminate]).
+  - (* ISet *)
+    apply andb_true_iff in Hc. destruct Hc as [Hm Hc].
+    destruct (rget (s_regs s) r); inversion He; subst s'. split; [reflexivity|].
+    exists [], []. split; [assumption|]. split; [intros q l' Hq; discriminate|]. split; [intros l' []|reflexivity].
+  - (* ILetLast *)
+    destruct (robj s r) as [[l [d|xs]]|]; try discriminate. destruct (last_opt xs); inversion He; subst s'.
+    split; [reflexivity|]. exists fresh, owned. split; [assumption|]. split; [exact Ho|]. split; [auto | discriminate].
+  - (* ILetItem *)
+    destruct (robj s r) as [[l [d|xs]]|]; try discriminate. destruct (nth_error ps k); try discriminate.
+    destruct (dict_get d n); inversion He; subst s'.
+    split; [reflexivity|]. exists fresh, owned. split; [assumption|]. split; [exact Ho|]. split; [auto | discriminate].
+Qed.
+
+(* the whole run with arbitrary interference (cells appended by others) between its instructions *)
+Fixpoint exec_intf (ps : list N) (s : st) (p : prog) (intf : list (list obj)) : st * out :=
+  match p with
+  | PDo i p' =>
+      match exec_instr ps s i with
+      | Some s' => exec_intf ps (interfere s' (hd [] intf)) p' (tl intf)
+      | None => (s, OStuck)
+      end
+  | PIf c a b =>
+      match eval_cond ps s c with
+      | Some true => exec_intf ps s a intf
+      | Some false => exec_intf ps s b intf
+      | None => (s, OStuck)
+      end
+  | PRet e => (s, eval_ret ps s e)
+  | PRaiseAttr => (s, OAttrError)
+  end.
+
+Lemma exec_instr_len : forall ps s i s', exec_instr ps s i = Some s' -> length (s_heap s) <= length (s_heap s').
+Proof.
+  intros ps s i s' He. destruct i; cbn [exec_instr] in He;
+    repeat match type of He with
+           | match ?x with _ => _ end = _ => destruct x eqn:?; try discriminate
+           | (if ?x then _ else _) = _ => destruct x eqn:?; try discriminate
+           end;
+    inversion He; subst s'; cbn; rewrite ?app_length, ?upd_nth_length; lia.
+Qed.
+
+Lemma cow_intf : forall p ps fresh s owned intf (h0 : heap),
+  cow_safe_from fresh p = true -> own_ok fresh s owned ->
+  (forall l, In l owned -> length h0 <= l) -> length h0 <= length (s_heap s) ->
+  forall l, l < length h0 ->
+  nth_error (s_heap (fst (exec_intf ps s p intf))) l = nth_error (s_heap s) l.
+Proof.
+  induction p as [i p IH | c pt IHt pe IHe | e | ]; intros ps fresh s owned intf h0 Hc Ho Hown Hlen l Hl; cbn [exec_intf].
+  - destruct (exec_instr ps s i) as [s'|] eqn:E; [|reflexivity].
+    destruct (cow_instr_guarantee ps i p fresh s s' owned Hc Ho E) as [Hk [fresh' [owned' [Hc' [Ho' [Hsub _]]]]]].
+    pose proof (exec_instr_len ps s i s' E) as Hle.
+    rewrite (IH ps fresh' (interfere s' (hd [] intf)) owned' (tl intf) h0 Hc'
+               (own_ok_interfere _ _ _ _ Ho')).
+    + cbn. rewrite nth_error_app1 by lia. apply Hk; [|lia]. intro Hin. apply Hown in Hin. lia.
+    + intros l' Hin. destruct (Hsub l' Hin) as [H|H]; [auto | lia].
+    + cbn. rewrite app_length. lia.
+    + assumption.
+  - cbn [cow_safe_from] in Hc. apply andb_true_iff in Hc. destruct Hc as [Ha Hb].
+    destruct (eval_cond ps s c) as [[|]|]; eauto.
+  - reflexivity.
+  - reflexivity.
+Qed.
+
+Theorem cow_sound_interleaved : forall p, cow_safe p = true ->
+  forall ps h b intf l, l < length h ->
+  nth_error (s_heap (fst (exec_intf ps (init_st h b) p intf))) l = nth_error h l.
+Proof.
+  intros p Hc ps h b intf l Hl.
+  apply (cow_intf p ps [] (init_st h b) [] intf h Hc); try assumption.
+  - intros r l' Hm. discriminate.
+  - intros l' [].
+  - cbn. lia.
+Qed.
+
+(* the clause "ContextVar.set publishes: nothing is fresh afterwards" is what the instruction-level
+   statement needs, and only that: x = get().copy(); set(x); x[name] = value is correct at operation
+   granularity, is rejected by cow_safe, and writes the cell it has already published (a child spawned
+   between set and the item assignment would see the assignment) *)
+Definition prog_write_after_publish : prog :=
+  PDo (IGet 1 KDict) (PDo (ICopy 0 1) (PDo (ISet 0) (PDo (ISetItem 0 0 1) (PRet RNone)))).
+Definition prefix_until_publish : prog :=
+  PDo (IGet 1 KDict) (PDo (ICopy 0 1) (PDo (ISet 0) (PRet RNone))).
+
+Lemma write_after_publish_witness :
+  cow_safe prog_write_after_publish = false /\
+  let s1 := fst (exec [3; 4]%N (init_st [] None) prefix_until_publish) in
+  let s2 := fst (exec [3; 4]%N (init_st [] None) prog_write_after_publish) in
+  s_bind s1 = Some 1 /\ s_bind s2 = Some 1 /\
+  nth_error (s_heap s1) 1 = Some (ODict []) /\ nth_error (s_heap s2) 1 = Some (ODict [(3, 4)]%N).
+Proof. vm_compute. repeat split. Qed.
+
+(* cow_safe is sufficient, not necessary: re-publishing the object just read is harmless and rejected *)
+Definition prog_set_what_was_got : prog := PDo (IGet 0 KDict) (PDo (ISet 0) (PRet RNone)).
+Lemma cow_safe_not_necessary :
+  cow_safe prog_set_what_was_got = false /\
+  forall ps h l, l < length h -> nth_error (s_heap (fst (exec ps (init_st h (Some l)) prog_set_what_was_got))) l = nth_error h l.
+Proof. split; [reflexivity|]. intros ps h l Hl. reflexivity. Qed.
